@@ -1325,6 +1325,74 @@ def _k7_analyse(prog: Program, fn: FunctionInfo, summaries: dict) -> tuple[dict,
     return findings, proven, {"bad": call_findings, "ok": call_proven, "wide_bad": wide_findings, "wide_ok": wide_proven}
 
 
+def _single_entry(ix: ast.expr) -> int:
+    """how many axes of the index select ONE position (an int, or a slice of width one written -1: / k:k+1); 0 when any element selects more"""
+    elts = ix.elts if isinstance(ix, ast.Tuple) else [ix]
+    n = 0
+    for x in elts:
+        if isinstance(x, ast.Constant) and x.value is Ellipsis:
+            continue
+        if isinstance(x, ast.Constant) and isinstance(x.value, int) or (isinstance(x, ast.UnaryOp) and isinstance(x.op, ast.USub) and isinstance(x.operand, ast.Constant)):
+            n += 1
+            continue
+        if isinstance(x, ast.Slice) and x.step is None and x.lower is not None:
+            lo = ast.literal_eval(x.lower) if isinstance(x.lower, (ast.Constant, ast.UnaryOp)) and not any(isinstance(y, ast.Name) for y in ast.walk(x.lower)) else None
+            hi = (ast.literal_eval(x.upper) if x.upper is not None and not any(isinstance(y, ast.Name) for y in ast.walk(x.upper)) else None)
+            if isinstance(lo, int) and ((x.upper is None and lo == -1) or (isinstance(hi, int) and hi - lo == 1)):
+                n += 1
+                continue
+        return 0
+    return n
+
+
+def rule_K11(run: Run, prog: Program) -> int:
+    run.rule(
+        "E6.K11",
+        "a matrix handed to the constructor of a projective object (cls(...), type(self)(...), from_array, a transformation / quadric class) is not divided by "
+        "ONE OF ITS OWN ENTRIES: the scale of a representative is immaterial, and the entry vanishes for legitimate objects (a map that sends the origin to "
+        "infinity has corner entry 0), so the quotient is nan on a family of legal inputs",
+    )
+    n = 0
+    projective = {c.name for c in prog.classes.values() if any(b.name == "ProjectiveTensor" for b in prog.mro(c))}
+    ctor_names = projective | {"cls", "from_array", "from_tensor"}
+    for fn in prog.package_functions():
+        if fn.parent is not None:
+            continue
+        assigned: dict[str, ast.BinOp] = {}
+        quotients: list[tuple[ast.BinOp, ast.stmt]] = []
+        for st in walk_no_nested(fn.node):
+            if not isinstance(st, ast.stmt):
+                continue
+            for x in ast.walk(st) if not isinstance(st, (ast.FunctionDef, ast.If, ast.For, ast.While, ast.With, ast.Try)) else []:
+                if isinstance(x, ast.BinOp) and isinstance(x.op, ast.Div) and isinstance(x.right, ast.Subscript) and _single_entry(x.right.slice) >= 2 \
+                        and ast.unparse(x.right.value) == ast.unparse(x.left):
+                    quotients.append((x, st))
+                    if isinstance(st, ast.Assign) and len(st.targets) == 1 and isinstance(st.targets[0], ast.Name) and st.value is x:
+                        assigned[st.targets[0].id] = x
+        if not quotients:
+            continue
+        for st in walk_no_nested(fn.node):
+            if not isinstance(st, ast.Call):
+                continue
+            f_ = st.func
+            nm = f_.attr if isinstance(f_, ast.Attribute) else getattr(f_, "id", "")
+            is_type_self = isinstance(f_, ast.Call) and isinstance(f_.func, ast.Name) and f_.func.id == "type"
+            if nm not in ctor_names and not is_type_self:
+                continue
+            for a in list(st.args) + [k.value for k in st.keywords]:
+                q = a if any(a is q_ for q_, _s in quotients) else assigned.get(a.id) if isinstance(a, ast.Name) else None
+                if q is None:
+                    continue
+                n += 1
+                run.add("E6.K11", fn.short, ast.unparse(st)[:90], VIOLATION,
+                        f"`{ast.unparse(q)[:70]}` divides the matrix by its own entry `{ast.unparse(q.right)[:40]}` before it becomes a projective object: the entry is zero "
+                        f"for legitimate objects (a projective map that sends the origin to infinity), and the quotient is nan there", f"{fn.module.rel}:{st.lineno}")
+    if n == 0:
+        run.add("E6.K11", "package", "constructor arguments", PROVEN, "no matrix is divided by one of its own entries on its way into a projective object", "")
+        n = 1
+    return n
+
+
 def rule_K7w(run: Run, prog: Program) -> int:
     run.rule(
         "E6.K7w",
